@@ -50,6 +50,9 @@ func Run(d *fw.Driver, res *fw.Result, seed int64, thorough bool) error {
 	}
 	httpURL := strings.TrimPrefix(line, "URL ")
 	wsURL := "ws" + strings.TrimPrefix(httpURL, "http")
+	if err := concurrentPanics(res, child, httpURL, wsURL); err != nil {
+		return err
+	}
 	reps := 1
 	if thorough {
 		reps = 6
@@ -251,5 +254,70 @@ func one(d *fw.Driver, res *fw.Result, child *victim.Child, url, httpURL, transp
 		res.Sample(map[string]interface{}{"transport": transport, "payload": kind, "call": callKind, "concurrent": concurrent, "caller_error": fmt.Sprint(callErr)})
 	}
 	res.Compare(fmt.Sprintf("panic transport=%s call=%s payload=%d concurrent=%d", transport, callKind, kind, concurrent), ask, modelView, impl, mon)
+	return nil
+}
+
+// concurrentPanics: many handlers panic at the same moment, on several connections and both transports, before
+// any of them has panicked before.  Each caller gets its own error, the process keeps running, and a healthy
+// call afterwards works.
+func concurrentPanics(res *fw.Result, child *victim.Child, httpURL, wsURL string) error {
+	const perTransport = 12
+	var clients []*vClient
+	var closers []jsonrpc.ClientCloser
+	for i := 0; i < 4; i++ {
+		url := wsURL
+		if i%2 == 1 {
+			url = httpURL
+		}
+		vc := &vClient{}
+		closer, err := jsonrpc.NewMergeClient(context.Background(), url, "V", []interface{}{vc}, nil, jsonrpc.WithNoReconnect())
+		if err != nil {
+			return err
+		}
+		clients, closers = append(clients, vc), append(closers, closer)
+	}
+	defer func() {
+		for _, c := range closers {
+			c()
+		}
+	}()
+	for round := 0; round < 3; round++ {
+		var wg sync.WaitGroup
+		start := make(chan struct{})
+		errs := make([]error, 2*perTransport)
+		for g := 0; g < 2*perTransport; g++ {
+			wg.Add(1)
+			go func(g int) {
+				defer wg.Done()
+				<-start
+				ctx, cancel := context.WithTimeout(context.Background(), 6*time.Second)
+				defer cancel()
+				_, errs[g] = clients[g%len(clients)].Panic(ctx, g%6)
+				// … and keep panicking side by side for a while (no barrier: continuous overlap)
+				for k := 0; k < 60 && errs[g] != nil && strings.Contains(errs[g].Error(), "panic"); k++ {
+					_, errs[g] = clients[g%len(clients)].Panic(ctx, (g+k)%6)
+				}
+			}(g)
+		}
+		close(start)
+		wg.Wait()
+		time.Sleep(2 * time.Millisecond)
+		res.Count("concurrent-panics")
+		res.Eval(true, []interface{}{"concurrent-panics", round})
+		if !child.Alive() {
+			res.Add(fw.Finding{Kind: "monitor", Signature: "concurrent panics: process died", Detail: "handlers panicking at the same moment took the server process down: " + child.CrashInfo(),
+				Case: map[string]interface{}{"scenario": "concurrent-panics", "callers": 2 * perTransport}})
+			return nil
+		}
+		for g, err := range errs {
+			if err == nil || !strings.Contains(err.Error(), "panic") {
+				res.Add(fw.Finding{Kind: "monitor", Signature: "concurrent panics: caller without a panic error", Detail: fmt.Sprintf("caller %d got %v", g, err)})
+				break
+			}
+		}
+		if v, err := clients[1].Sum(20, 22); err != nil || v != 42 {
+			res.Add(fw.Finding{Kind: "monitor", Signature: "concurrent panics: later call fails", Detail: fmt.Sprintf("Sum(20,22) = %d, %v", v, err)})
+		}
+	}
 	return nil
 }
